@@ -28,9 +28,10 @@ import (
 // The queue is unbounded: a publisher never waits for a subscriber. A connection keeps its queue when
 // it unsubscribes from everything, so that what it receives after subscribing again stays in order.
 type outbox struct {
-	mut   sync.Mutex
-	cond  *sync.Cond
-	queue [][]resp.Value
+	mut     sync.Mutex
+	cond    *sync.Cond
+	queue   [][]resp.Value
+	writing bool // The writer goroutine has taken a frame off the queue and has not finished writing it.
 }
 
 func newOutbox(conn *net.Conn) *outbox {
@@ -45,11 +46,16 @@ func newOutbox(conn *net.Conn) *outbox {
 			}
 			frame := o.queue[0]
 			o.queue = o.queue[1:]
+			o.writing = true
 			o.mut.Unlock()
 			if err := w.WriteArray(frame); err != nil {
 				log.Println(err)
 			}
 			verifWritten()
+			o.mut.Lock()
+			o.writing = false
+			o.mut.Unlock()
+			o.cond.Broadcast()
 		}
 	}()
 	return o
@@ -61,5 +67,14 @@ func (o *outbox) push(frame []resp.Value) {
 	o.queue = append(o.queue, frame)
 	verifQueued()
 	o.mut.Unlock()
-	o.cond.Signal()
+	o.cond.Broadcast()
+}
+
+// flush returns once everything queued so far has been written to the connection.
+func (o *outbox) flush() {
+	o.mut.Lock()
+	for len(o.queue) > 0 || o.writing {
+		o.cond.Wait()
+	}
+	o.mut.Unlock()
 }
